@@ -452,9 +452,45 @@ class CFG:
                     known[lit] = names
                 continue
             stored = {x.id for x in ast.walk(a) if isinstance(x, ast.Name) and isinstance(x.ctx, (ast.Store, ast.Del))} if n.kind in ("stmt", "for", "with_enter", "handler") else set()
+            copied: Set[str] = set()
+            if n.kind == "stmt" and isinstance(a, ast.Assign) and len(a.targets) == 1 and isinstance(a.targets[0], ast.Name) and lab != "exc" \
+                    and isinstance(a.value, ast.Name):
+                # x = y: what is known about y alone is known about x
+                src, dst = a.value.id, a.targets[0].id
+                for lit, nms in list(known.items()):
+                    if nms == {src} and src != dst:
+                        try:
+                            e2 = ast.parse(lit, mode="eval").body
+                        except Exception:
+                            continue
+                        for x in ast.walk(e2):
+                            if isinstance(x, ast.Name) and x.id == src:
+                                x.id = dst
+                        try:
+                            copied |= set(guards.facts(e2, True))
+                        except Exception:
+                            pass
             if stored:
                 for lit in [k for k, v in known.items() if v & stored]:
                     del known[lit]
+            if n.kind == "stmt" and isinstance(a, ast.Assign) and len(a.targets) == 1 and isinstance(a.targets[0], ast.Name) and lab != "exc":
+                # x = None / x = <something that is never None> establishes a fact about x (an assignment that raised binds nothing)
+                v, dst = a.value, a.targets[0].id
+                fact = None
+                if isinstance(v, ast.Constant) and v.value is None:
+                    fact = f"{dst} is None"
+                elif (isinstance(v, ast.Constant) and v.value is not None) or isinstance(v, (ast.List, ast.Tuple, ast.Dict, ast.Set, ast.JoinedStr)) or \
+                        (isinstance(v, ast.Call) and ((isinstance(v.func, ast.Name) and v.func.id in ("len", "int", "list", "tuple", "bool", "str", "bytes"))
+                                                      or (isinstance(v.func, ast.Attribute) and v.func.attr in ("index", "find", "count")))):
+                    fact = f"{dst} is not None"
+                if fact is not None:
+                    try:
+                        for lit in guards.facts(ast.parse(fact, mode="eval").body, True):
+                            known[lit] = {dst}
+                    except Exception:
+                        pass
+                for lit in copied:
+                    known[lit] = {dst}
         return True
 
     # ------------------------------------------------------------------ dataflow
